@@ -74,6 +74,8 @@ class Cfg:
                 ops.append(("r", 4, a, 0))
                 ops.append(("w", 4, a, 0))
                 ops.append(("u", 4, a, 0))
+        if alphabet in ("word", "control"):
+            ops.append(("reset", 4, base, 0))  # what load_program does to the memory system: everything is cleared
         if variant == "mixed":
             # the same 32-bit address written in different ways inside ONE history (negative, >= 2^32): every word of the
             # first tag also gets a read spelled a - 2^32 and a write spelled a + 2^32
@@ -146,6 +148,24 @@ class World:
         kind, width, a, vi = op[:4]
         alias = op[4] if len(op) > 4 else 0
         mem = self.mem
+        if kind == "reset":
+            st0 = mem.get_cache_stats() if checks is not None else None
+            cyc0 = self.pm.cycles
+            try:
+                mem.reset()
+            except Exception as e:  # noqa
+                if checks is not None:
+                    checks.append(("unexpected-error", f"reset() raised {type(e).__name__}: {e}"))
+                return "error"
+            self.flat = {}
+            old = self.ref
+            self.ref = RefCache(self.cfg.ib, self.cfg.bb, self.cfg.ways, self.cfg.kind, self.cfg.policy, self.cfg.penalty)
+            self.ref.hits, self.ref.accesses, self.ref.last = old.hits, old.accesses, old.last
+            self.ref.events = set(old.events) | {"reset"}
+            self.ref_valid = True
+            if checks is not None and self.pm.cycles != cyc0:
+                checks.append(("penalty", f"reset() advanced the cycle counter by {self.pm.cycles - cyc0}"))
+            return "ok"
         crossing = (a & 3) + width > 4
         st0 = mem.get_cache_stats() if checks is not None else None
         cyc0 = self.pm.cycles
@@ -333,6 +353,8 @@ def _dropzero(c):
 
 def opname(op):
     kind, width, a, vi = op[:4]
+    if kind == "reset":
+        return "reset()"
     alias = op[4] if len(op) > 4 else 0
     w = {1: "byte", 2: "halfword", 4: "word"}[width]
     at = f"{a:#x}" + ("" if not alias else (" - 2^32" if alias < 0 else " + 2^32"))
